@@ -41,6 +41,8 @@ PREAMBLE = ("From SV Require Import C15.Oks C16.Metrics.\nFrom Coq Require Impor
 RENDER = "rresult"
 ATOL, RTOL = 1e-12, 1e-9
 SEL_F6 = "delete_frees_gt_for_later_prediction"
+SEL_F160 = "perfect_copy_cross_pair_oks_1"         # = Metrics.frame_selector_F160 on some paired frame
+SEL_F161 = "perfect_copy_all_nan_gt_instance"      # = Metrics.frame_selector_F161 on some paired frame
 EPS = F(1, 2 ** 52)
 
 
@@ -86,7 +88,7 @@ def gen_eval(rng, thorough):
     if rng.random() < 0.4:
         off = [F(rng.choice([-20000, -1000, -64, 512, 1000, 4096, 20000])) for _ in range(2)]
     sh = lambda pose: [[None if v is None else v + off[d] for d, v in enumerate(p)] for p in pose]
-    gtf, prf, gt_vid, pr_vid, gt_kinds, used = [], [], [], [], [], set()
+    gtf, prf, gt_vid, pr_vid, gt_kinds, used, srcs = [], [], [], [], [], set(), []
     for fi in idxs:
         gvi = rng.randrange(len(gvideos))
         if mode == "perfect" and (gvi, fi) in used:
@@ -97,13 +99,22 @@ def gen_eval(rng, thorough):
         for _ in range(n_gt):
             g = gen_pose(rng, n_nodes, 2, R, p_nan, shape=rng.choice(["free"] * 9 + ["single"]))
             g = whole_nan(g)
-            if n_vis(g) == 0 and (mode == "perfect" or rng.random() < 0.6):
+            if n_vis(g) == 0 and rng.random() < 0.6:
                 g[0] = [F(rng.randrange(0, 8 * R), 8), F(rng.randrange(0, 8 * R), 8)]
-            gts.append(g)                              # (non-perfect modes keep a few all-NaN gt instances)
+            if mode == "perfect" and rng.random() < 0.05:
+                g = [[None, None] for _ in g]          # F161: a gt instance without a visible keypoint
+            gts.append(g)                              # (all modes keep a few all-NaN gt instances)
         if mode != "perfect" and rng.random() < 0.08:
             gts = []                                   # gt frame without user instances
         if gts and mode != "perfect" and rng.random() < 0.1:
             gts[-1] = [list(p) for p in gts[0]]        # two animals on top of each other
+        if len(gts) >= 2 and mode == "perfect" and rng.random() < 0.12:
+            # F160: two animals that coincide on the visible keypoints of one of them (or entirely)
+            a, b = rng.sample(range(len(gts)), 2)
+            gts[b] = [list(p) for p in gts[a]]
+            for kk in range(len(gts[b])):
+                if rng.random() < 0.4:
+                    gts[rng.choice([a, b])][kk] = [None, None]
         kinds = [None] * len(gts)
         if mode != "perfect" and rng.random() < 0.3:  # predicted instances among the ground truth
             for _ in range(rng.choice([1, 1, 2])):
@@ -123,7 +134,7 @@ def gen_eval(rng, thorough):
         for g in (user if (ulo or rng.random() < 0.5) else gts):
             r = rng.random()
             if mode == "perfect":
-                prs.append([[list(p) for p in g], F(rng.randint(0, 8), 8)])
+                prs.append([[list(p) for p in g], F(rng.randint(0, 8), 8), len(prs)])    # [pose, score, gt index]
                 continue
             if r < 0.12:
                 continue                               # missed animal
@@ -140,7 +151,11 @@ def gen_eval(rng, thorough):
                 pose = noisy_copy(rng, src, rng.choice([1, 4, 16]), 0.1, 2, R) if src else \
                     gen_pose(rng, n_nodes, 2, R, p_nan, shape="free")
                 prs.append([pose, F(rng.randint(0, 8), 8)])
-        rng.shuffle(prs)
+        inorder = mode == "perfect" and rng.random() < 0.6     # copies in gt order: Coq selectors are compared
+        if not inorder:
+            rng.shuffle(prs)
+        srcs.append([x[2] for x in prs] if mode == "perfect" else None)
+        prs = [x[:2] for x in prs]
         # the prediction video with the same key (first one: the one find_frame_pairs picks), else any
         same = [i for i, k in enumerate(pvideos) if k == gvideos[gvi]]
         pvi = same[0] if same and (mode == "perfect" or rng.random() < 0.9) else rng.randrange(len(pvideos))
@@ -151,13 +166,15 @@ def gen_eval(rng, thorough):
                    for _ in range(rng.choice([0, 1, 2]))]
             prf.append([fi, dup])
             pr_vid.append(pvi)
+            srcs.append(None)
     if mode != "perfect" and rng.random() < 0.2:
         prf.append([rng.choice([i for i in range(12, 16)]),
                     [[sh(gen_pose(rng, n_nodes, 2, R, 0, shape="free")), F(1, 2)]]])    # unpaired prediction frame
         pr_vid.append(rng.randrange(len(pvideos)))
+        srcs.append(None)
     order = list(range(len(prf)))
     rng.shuffle(order)
-    prf, pr_vid = [prf[i] for i in order], [pr_vid[i] for i in order]
+    prf, pr_vid, srcs = [prf[i] for i in order], [pr_vid[i] for i in order], [srcs[i] for i in order]
     mthrs = rthrs = pthrs = None
     if rng.random() >= 0.4:
         mthrs = list({F(rng.randint(0, 17), 16) for _ in range(rng.randint(1, 5))})
@@ -167,8 +184,22 @@ def gen_eval(rng, thorough):
             rthrs = sorted(rthrs)
         if rng.random() < 0.6:
             pthrs = sorted({F(rng.randint(-2, 48), 4) for _ in range(rng.randint(1, 5))})
+    if rng.random() < 0.3:
+        # boundary stream: recall thresholds ON the float64 recall values k/n and their upper float neighbours
+        # (n around the number of gt instances): the rounding of tp/npig decides np.searchsorted there
+        n0 = sum(1 for kinds in gt_kinds for k in kinds if k is None)
+        if mthrs is None:
+            mthrs = sorted({F(rng.randint(0, 17), 16) for _ in range(rng.randint(1, 4))})
+        vals = set()
+        for nn in (n0 - 1, n0, n0 + 1):
+            for k in range(1, max(nn, 0) + 1):
+                vals.add(F(k / nn))
+                vals.add(F(math.nextafter(k / nn, 2.0)))
+        if vals:
+            rthrs = sorted(vals) if rng.random() < 0.7 else rng.sample(sorted(vals), len(vals))
     return {"kind": "eval", "mode": mode, "n_nodes": n_nodes, "ulo": ulo, "gtf": gtf, "prf": prf,
             "gvideos": gvideos, "pvideos": pvideos, "gt_vid": gt_vid, "pr_vid": pr_vid, "gt_kinds": gt_kinds,
+            "src": srcs if mode == "perfect" else None,
             "thr": rng.choice([F(0), F(0), F(0), F(1, 4), F(1, 2)] + ([] if mode == "perfect" else [F(-1)])),
             "sd": rng.choice([None, None, F(1, 8), F(1, 2)]), "sc": rng.choice([None, None, F(10), F(100)]),
             "mthrs": mthrs, "rthrs": rthrs, "pthrs": pthrs, "sub": rng.randrange(1 << 30),
@@ -185,6 +216,8 @@ def norm_case(c):
     c.setdefault("gt_kinds", [[None] * len(g) for _, g in c["gtf"]])
     c.setdefault("second", None)
     c.setdefault("twice", False)
+    if c.get("mode") == "perfect" and c.get("src") is None:
+        c["src"] = [list(range(len(prs))) for _, prs in c["prf"]]       # corpus witnesses: copies in gt order
     return c
 
 
@@ -461,6 +494,61 @@ def term(c, impl, fixed51):
     return (f"{head} {core.cq(c['thr'])} {c['n_nodes']}%nat {db} {gtL} {prL} {ql(m)} {ql(r)} {ql(p)}")
 
 
+def sel_terms(c, impl, fj=None):
+    """Coq terms evaluating the model's selectors on the case: labels_selector_F6 (deletion of prediction k of
+    prediction frame position j) or labels_selector_F16x (perfect copies)."""
+    gtL = clabels(c["gvideos"], c["gtf"], c["gt_vid"], c["gt_kinds"])
+    prL = clabels(c["pvideos"], [[idx, [x[0] for x in prs]] for idx, prs in c["prf"]], c["pr_vid"],
+                  [[x[1] for x in prs] for _, prs in c["prf"]])
+    db = core.clist(c["db"], lambda t: f"({t[0]}%nat, {t[1]}%nat, {cmatrix(t[2])})")
+    sec = "None" if c.get("second") is None else f"(Some {core.cbool(c['second'])})"
+    if fj is None:
+        return f"CSel60 {sec} {core.cbool(c['ulo'])} {db} {gtL} {prL}"
+    return f"CSel {sec} {core.cbool(c['ulo'])} {core.cq(c['thr'])} {db} {gtL} {prL} {fj[0]}%nat {fj[1]}%nat"
+
+
+def perfect_selectors(c):
+    """Python mirror of Metrics.labels_selector_F16x, by the origin of every copy (c['src']: the gt index a
+    prediction copies; equal to the prediction's own index when the copies are in gt order, which is the case
+    the Coq selector speaks about): F160 = in some paired frame a gt instance i and the copy of ANOTHER gt
+    instance have OKS >= 1; F161 = some paired frame has a participating gt instance without visible keypoint."""
+    _, part, pairs = gt_view(c, second=c.get("second") is not None)
+    db = {(gi, pi): M for gi, pi, M in c["db"]}
+    f160 = f161 = False
+    for gi, pi in pairs:
+        M = db.get((gi, pi), [])
+        src = c["src"][pi]
+        for i in part[gi]:
+            if n_vis(c["gtf"][gi][1][i]) == 0:
+                f161 = True
+            for j, v in enumerate(M[i] if i < len(M) else []):
+                if v is not None and v >= 1 and src is not None and src[j] != i:
+                    f160 = True
+    return f160, f161
+
+
+def delete_selector(c, out, fi, k):
+    """Python mirror of Metrics.labels_selector_F6 (= selector_F6 of c16_delete_prediction_partial) on the
+    implementation's own pairs: the deleted prediction was matched to a gt instance g, and a prediction q
+    processed later in the frame has OKS(g, q) > match threshold and was itself unmatched or matched with an
+    OKS <= OKS(g, q) (q would take g, or may prefer it)."""
+    if "raises" in out:
+        return False
+    scores = [s for _, s in c["prf"][fi][1]]
+    db = {(gi, pi): M for gi, pi, M in c["db"]}
+    for g, p, _ in out["pairs"]:
+        if p == (fi, k):
+            gf, gk = g
+            row = db[(gf, fi)][gk]
+            later = [j for j in range(len(scores)) if j != k and
+                     ((scores[j] < scores[k]) or (scores[j] == scores[k] and j > k))]
+            got = {pp[1]: v for gg, pp, v in out["pairs"] if gg[0] == gf and pp[0] == fi}
+            for j in later:
+                if row[j] is not None and row[j] > c["thr"] and (j not in got or F(got[j]) <= row[j]):
+                    return True
+    return False
+
+
 # ---------------------------------------------------------------- comparison
 def close(a, b, atol=ATOL, rtol=RTOL):
     if a is None or b is None:
@@ -640,32 +728,43 @@ def oracle_eval(c, out, impl):
         return "visibility ratio undefined although its denominator is positive"
     # (a) perfect predictions
     if c["mode"] == "perfect":
-        cross = any(v is not None and v >= 1 and c["prf"][pi][1][j][0] != c["gtf"][gi][1][i]
-                    for gi, pi, M in c["db"] for i, row in enumerate(M) for j, v in enumerate(row))
-        if cross:
-            c["_cross"] = True
-            return None                                  # outside the theorem's hypothesis (coincident animals)
-        n_gt = sum(len(g) for _, g in c["gtf"])
-        if npairs != n_gt or out["fn"]:
-            return f"perfect predictions: {npairs} pairs, {len(out['fn'])} false negatives for {n_gt} animals"
-        if abs(out["moks"] - 1) > 1e-12:
-            return f"perfect predictions: mOKS = {out['moks']}"
-        if any(not (math.isnan(x) or x == 0) for row in out["dists"] for x in row):
-            return "perfect predictions: a non-zero distance"
-        if not math.isnan(out["avg"]) and out["avg"] != 0:
-            return f"perfect predictions: avg distance {out['avg']}"
-        lo = 1 / (1 + float(EPS)) - 1e-12
-        for ti, row in enumerate(voc["precisions"]):
-            if mthrs[ti] <= 1:
-                for ri, x in enumerate(row):
-                    if rthrs[ri] <= 1 and not (lo <= x <= 1):
-                        return f"perfect predictions: precision {x} at recall threshold {rthrs[ri]}"
-                if abs(voc["AR"][ti] - 1) > 1e-12:
-                    return f"perfect predictions: AR = {voc['AR'][ti]}"
-        nvis = sum(n_vis(g) for _, gts in c["gtf"] for g in gts)
-        frac = nvis / (n_gt * c["n_nodes"])
-        if all(t > 0 for t in pthrs) and abs(out["mpck"] - frac) > 1e-12:
-            return f"perfect predictions: mPCK {out['mpck']} != visible fraction {frac}"
+        r = oracle_perfect(c, out, voc, npairs, mthrs, rthrs, pthrs)
+        if r:
+            # findings F160 / F161: the failure is reported under the selector it falls in (KNOWN-FINDING while
+            # the selector is listed in known_findings.txt), as a VIOLATION outside both
+            f160, f161 = perfect_selectors(c)
+            return (r, SEL_F160 if f160 else SEL_F161 if f161 else None)
+    return None
+
+
+def oracle_perfect(c, out, voc, npairs, mthrs, rthrs, pthrs):
+    """Clause (a) as stated: predictions identical to the ground truth give perfect scores."""
+    n_gt = sum(len(g) for _, g in c["gtf"])
+    if npairs != n_gt or out["fn"]:
+        return f"perfect predictions: {npairs} pairs, {len(out['fn'])} false negatives for {n_gt} animals"
+    if abs(out["moks"] - 1) > 1e-12:
+        return f"perfect predictions: mOKS = {out['moks']}"
+    if any(not (math.isnan(x) or x == 0) for row in out["dists"] for x in row):
+        return "perfect predictions: a non-zero distance"
+    if not math.isnan(out["avg"]) and out["avg"] != 0:
+        return f"perfect predictions: avg distance {out['avg']}"
+    lo = 1 / (1 + float(EPS)) - 1e-12
+    for ti, row in enumerate(voc["precisions"]):
+        if mthrs[ti] <= 1:
+            for ri, x in enumerate(row):
+                if rthrs[ri] <= 1 and not (lo <= x <= 1):
+                    return f"perfect predictions: precision {x} at recall threshold {rthrs[ri]}"
+            if abs(voc["AR"][ti] - 1) > 1e-12:
+                return f"perfect predictions: AR = {voc['AR'][ti]}"
+            if rthrs and all(r <= 1 for r in rthrs) and not (lo <= voc["AP"][ti] <= 1 + 1e-12):
+                return f"perfect predictions: AP = {voc['AP'][ti]}"
+    if mthrs and rthrs and all(t <= 1 for t in mthrs) and all(r <= 1 for r in rthrs):
+        if not (lo <= voc["mAP"] <= 1 + 1e-12) or abs(voc["mAR"] - 1) > 1e-12:
+            return f"perfect predictions: mAP = {voc['mAP']}, mAR = {voc['mAR']}"
+    nvis = sum(n_vis(g) for _, gts in c["gtf"] for g in gts)
+    frac = nvis / (n_gt * c["n_nodes"])
+    if all(t > 0 for t in pthrs) and abs(out["mpck"] - frac) > 1e-12:
+        return f"perfect predictions: mPCK {out['mpck']} != visible fraction {frac}"
     return None
 
 
@@ -687,22 +786,8 @@ def oracle_delete(c, out, out_del, fi, k, impl):
     worse = [i for i in range(n) if r1[i] > r0[i] + 1e-12]
     if not worse:
         return None
-    # selector (= complement of the hypothesis of c16_delete_prediction_partial): the deleted prediction was
-    # matched to a gt instance g, and a prediction q processed later in the frame has OKS(g, q) > match threshold
-    # and was itself unmatched or matched with an OKS <= OKS(g, q) (q would take g, or may prefer it)
-    scores = [s for _, s in c["prf"][fi][1]]
-    sel = None
-    db = {(gi, pi): M for gi, pi, M in c["db"]}
-    for g, p, _ in out["pairs"]:
-        if p == (fi, k):
-            gf, gk = g
-            row = db[(gf, fi)][gk]
-            later = [j for j in range(len(scores)) if j != k and
-                     ((scores[j] < scores[k]) or (scores[j] == scores[k] and j > k))]
-            got = {pp[1]: v for gg, pp, v in out["pairs"] if gg[0] == gf and pp[0] == fi}
-            for j in later:
-                if row[j] is not None and row[j] > c["thr"] and (j not in got or F(got[j]) <= row[j]):
-                    sel = SEL_F6
+    # selector = complement of the hypothesis of c16_delete_prediction_partial / _frames_partial
+    sel = SEL_F6 if delete_selector(c, out, fi, k) else None
     return (f"deleting prediction {k} of frame {c['prf'][fi][0]} raises recall {r0[worse[0]]} -> {r1[worse[0]]} "
             f"at match threshold {impl.thresholds(c)[0][worse[0]]}", sel)
 
@@ -721,7 +806,7 @@ def load_corpus():
 
 
 def case_json(c):
-    return enc({k: v for k, v in c.items() if k not in ("db", "impl", "base", "_cross")})
+    return enc({k: v for k, v in c.items() if k not in ("db", "impl", "base")})
 
 
 def check(run: core.Run) -> int:
@@ -756,7 +841,13 @@ def check(run: core.Run) -> int:
     terms = [term(c, impl, fixed51) for c in allc]
     rq = gen_rnd(rng, 400)
     terms.append("CRnd " + core.clist(rq, core.cq))
-    model = core.coq_eval_sharded(PREAMBLE, terms, "run", RENDER, shard=24, jobs=12)
+    # the model's selectors (premises of the _partial theorems), evaluated by Coq and compared with the oracle's
+    inorder = lambda c: all(sr == list(range(len(sr))) for sr in c["src"] if sr is not None)
+    sel60 = [c for c in cases if c["mode"] == "perfect" and inorder(c)]
+    sel_terms_ = [sel_terms(c, impl) for c in sel60] + [sel_terms(d["base"], impl, d["base"]["delete"]) for d in variants]
+    model = core.coq_eval_sharded(PREAMBLE, terms + sel_terms_, "run", RENDER, shard=24, jobs=12)
+    sel_model = model[len(terms):]
+    model = model[:len(terms)]
     rnd_model = model.pop()
     bad_rnd = [str(q) for q, m in zip(rq, rnd_model) if F(q.numerator / q.denominator) != fq(m)]
     run.obligation("round_f64 (Coq) == IEEE float64 division on every sampled fraction a/b <= 1", not bad_rnd,
@@ -767,7 +858,9 @@ def check(run: core.Run) -> int:
              "second_evaluator_same_objects": 0, "metrics_called_twice": 0, "all_nan_distance_rows": 0,
              "all_nan_gt_instances": 0, "offset_coordinates": 0, "frame_pairs": 0,
              "pckvoc_boundary_skipped": 0, "pairs": 0, "false_negatives": 0, "perfect_cases": 0,
-             "perfect_cross_pair_excluded": 0, "deletions": 0, "deletions_raising_recall": 0, "errors": {}}
+             "perfect_in_selector_F160": 0, "perfect_in_selector_F161": 0, "perfect_failing_in_selector": 0,
+             "selector_F16x_compared": 0, "selector_F6_compared": 0, "selector_F6_true": 0,
+             "deletions": 0, "deletions_raising_recall": 0, "errors": {}}
     disagree, nfail, dist = 0, 0, {}
     for c, m in zip(allc, model):
         dist[c["mode"]] = dist.get(c["mode"], 0) + 1
@@ -800,16 +893,23 @@ def check(run: core.Run) -> int:
             diff = f"comparison failed: {type(e).__name__}: {e}"
         in_domain = not (out.get("raises") == "ErrValue" and not c["ulo"])   # F51 (C15) reached through ulo=False
         bad = oracle_eval(c, out, impl) if in_domain else None
+        bad_sel = None
+        if isinstance(bad, tuple):
+            bad, bad_sel = bad
         if c["mode"] == "perfect":
             stats["perfect_cases"] += 1
-            stats["perfect_cross_pair_excluded"] += 1 if c.get("_cross") else 0
+            f160, f161 = perfect_selectors(c)
+            stats["perfect_in_selector_F160"] += f160
+            stats["perfect_in_selector_F161"] += f161
+            stats["perfect_failing_in_selector"] += bool(bad and bad_sel)
         if diff:
             disagree += 1
             if disagree <= 3:
                 run.log(f"model/impl disagree: {diff} on {json.dumps(case_json(c))[:300]}")
         if bad:
             nfail += 1
-            run.violation("failing-input", {"case": case_json(c), "oracle": bad, "correspondence": diff})
+            run.violation("failing-input", {"case": case_json(c), "oracle": bad, "correspondence": diff},
+                          selector=bad_sel)
         elif diff:
             run.proof_broken.append(f"correspondence C16: {diff}; case {json.dumps(case_json(c))[:800]}")
     # (e) deleting predictions never increases recall
@@ -823,6 +923,26 @@ def check(run: core.Run) -> int:
                           selector=r[1])
     run.obligation("correspondence: Metrics.evaluate (Coq, vm_compute) == Evaluator (/repo, real sleap-io Labels) "
                    "on every case", disagree == 0, f"{disagree} disagreements")
+    # selectors: Coq (labels_selector_F16x / labels_selector_F6, on the model's own matching) == oracle (on the
+    # implementation's pairs)
+    sel_bad = []
+    for c, m in zip(sel60, sel_model[:len(sel60)]):
+        stats["selector_F16x_compared"] += 1
+        if [bool(x) for x in m] != list(perfect_selectors(c)):
+            sel_bad.append(f"F16x model {m} oracle {perfect_selectors(c)} on {json.dumps(case_json(c))[:300]}")
+    for d, m in zip(variants, sel_model[len(sel60):]):
+        c = d["base"]
+        if "raises" in c["impl"]:
+            continue
+        stats["selector_F6_compared"] += 1
+        py = delete_selector(c, c["impl"], c["delete"][0], c["delete"][1])
+        stats["selector_F6_true"] += py
+        if bool(m) != py:
+            sel_bad.append(f"F6 model {m} oracle {py} delete {c['delete']} on {json.dumps(case_json(c))[:300]}")
+    run.obligation("selectors: Metrics.labels_selector_F6 / labels_selector_F16x (Coq, vm_compute) == the oracle's "
+                   "selectors on every deletion variant / in-order perfect case", not sel_bad, "; ".join(sel_bad[:2]))
+    if sel_bad:
+        run.proof_broken.append("selector correspondence C16: " + sel_bad[0][:600])
     run.coverage.update({
         "input_distribution": dist, "disagreements": disagree, "oracle_failures": nfail, "stats": stats,
         "corpus_cases": len(corpus), "fixed_F51": fixed51, "round_f64_samples": len(rq),
@@ -843,8 +963,9 @@ def check(run: core.Run) -> int:
     ]
     run.assumptions += [
         "all videos are HDF5Video-backed (other backends lack .dataset / .source_filename: AttributeError, outside "
-        "the model); prediction labels hold PredictedInstances only; scores finite; perfect-mode gt instances have "
-        ">= 1 visible keypoint (an all-NaN instance has OKS NaN with everything and is never matched)",
+        "the model); prediction labels hold PredictedInstances only; scores finite",
+        "clause (a) is false as stated (findings F160 / F161, c16_perfect_refuted): perfect-mode cases include "
+        "coincident animals and all-NaN gt instances; their failures are reported under the selectors",
         "ratios are 'reported' when defined: with no positive pair mOKS/mPCK/avg are NaN and voc is the all-zero dict",
         "pck_voc is compared only when no per-pair PCK mean lies within 1e-9 of a match threshold",
     ]
@@ -861,6 +982,8 @@ def replay(run: core.Run, path: str) -> int:
     out = impl.run(c)
     bad = oracle_eval(c, out, impl)
     sel = None
+    if isinstance(bad, tuple):
+        bad, sel = bad
     if bad is None and rep.get("delete") is not None:
         d = delete_variant(c, *rep["delete"])
         d["db"] = impl.matrices(d)
